@@ -250,6 +250,9 @@ func genC01(t *rapid.T) c01Case {
 	} else {
 		main.Body = body
 	}
+	if g.n(0, 3, "brokenFirst") == 0 {
+		g.p.BrokenFirst = g.n(1, 120, "brokenAfter")
+	}
 	return c01Case{Prog: g.p, Path: path, Sites: g.sites}
 }
 
@@ -268,6 +271,9 @@ func judgeC01(c c01Case) (v core.Verdict) {
 		v.Label("nest:" + k)
 	}
 	v.Label("escaper:" + c.Prog.Escaper)
+	if c.Prog.BrokenFirst > 0 {
+		v.Label("after-an-execution-into-a-broken-destination")
+	}
 	for _, r := range c.Prog.Vars {
 		if strings.ContainsAny(r.S, "<>&'\"") || r.T == "level" || r.T == "code" {
 			special = true
@@ -310,7 +316,7 @@ func clipLong(s string) string {
 
 func TestC01(t *testing.T) {
 	core.Run(t, "C01",
-		"random nesting path (depth 0-5 of if/else/range/block/yield-with-content/default content/include/try/catch/exec, optionally under an extends layout) with 1-3 render sites per level; values (strings rich in < > & ' \" NUL multi-byte and pre-escaped entities, 4096-boundary long strings, ints, floats, bools, []byte, Stringer, error, slices, pointers) from literal / Execute variable / global / context sources; pipelines none/upper/html/raw/unsafe/safeHtml/safeJs/custom SafeWriter/prefix raw/chains; escaper default/nil/custom (byte-wise, non-idempotent); oracle = MiniJet reference interpreter, exact bytes; non-trivial = a value with a special byte and nesting depth >= 1",
+		"random nesting path (depth 0-5 of if/else/range/block/yield-with-content/default content/include/try/catch/exec, optionally under an extends layout) with 1-3 render sites per level; values (strings rich in < > & ' \" NUL multi-byte and pre-escaped entities, 4096-boundary long strings, ints, floats, bools, []byte, Stringer, error, slices, pointers) from literal / Execute variable / global / context sources; pipelines none/upper/html/raw/unsafe/safeHtml/safeJs/custom SafeWriter/prefix raw/chains; escaper default/nil/custom (byte-wise, non-idempotent); one case in four after an Execute of the same template into a destination that fails after 1-120 bytes; oracle = MiniJet reference interpreter, exact bytes; non-trivial = a value with a special byte and nesting depth >= 1",
 		genC01, judgeC01)
 }
 
